@@ -9,7 +9,7 @@ def gen(chk):
     rng = chk.rng
     groups = []     # each group: list of trees that differ only by order/nesting of + * ^ & | operands
     g = X.Gen(rng, ops_extra=[('fadd', 2)], signed_ints=False)
-    n = 1500 if chk.tier == 'quick' else 40000
+    n = 1500 if chk.tier == 'quick' else 6000
     for tag, t in simpgen.families():
         groups.append((tag, [t] + [X.permute_assoc(t, rng) for _ in range(2)]))
     for i in range(n):
@@ -72,7 +72,7 @@ def run(tier):
             lines.append('(simp2 %s)' % s); owner.append(gi)
     lines = XC.load_corpus('C13') + lines; owner = [-1] * (len(lines) - len(owner)) + owner
     chk.log('cases: %d in %d groups' % (len(lines), len(groups)))
-    seeds = ['0', '1', '2'] if tier == 'quick' else [str(i) for i in range(16)]
+    seeds = ['0', '1', '2'] if tier == 'quick' else [str(i) for i in range(8)]
     model = run_model('simp', lines)
     impls = {s: run_impl('impl_simp.py', lines, hashseed=s) for s in seeds}
     impl = impls[seeds[0]]
@@ -103,9 +103,12 @@ def run(tier):
     # (2) idempotence and order-insensitivity evaluated on the implementation's own answers
     nontriv = set(); bad_idem = []; bad_order = {}
     bygroup = {}
+    pos = {}
+    for k, l in enumerate(lines): pos.setdefault(l, k)
     for l, i, gi in zip(lines, impl, owner):
         if l.startswith('(simp2'):
-            first = impl[lines.index('(simp ' + l[7:])] if ('(simp ' + l[7:]) in lines else None
+            k1 = pos.get('(simp ' + l[7:])
+            first = impl[k1] if k1 is not None else None
             if first is not None and first != i and not i.startswith(('E ', 'X ')): bad_idem.append((l, first, i))
         elif gi >= 0:
             bygroup.setdefault(gi, []).append((l, i))
